@@ -156,8 +156,10 @@ def run_sel(tier, seed):
         extra = rng.sample(ed.dag_space(4, rng, with_illegal=False), 160)
         Ds += extra
         Ds += ed.debug_chain_dags(4, rng, 60) + ed.debug_chain_dags(5, rng, 60)
+        Ds += ed.nested_dags(rng, 60)
     else:
         Ds += ed.debug_chain_dags(4, rng, 10 ** 6) + ed.debug_chain_dags(5, rng, 1500)
+        Ds += ed.nested_dags(rng, 1500)
         limit = 400
         Ds += ed.dag_space(3, rng, const_mode="all", with_illegal=False)[::3]
         Ds += rng.sample(ed.dag_space(4, rng, with_illegal=False), 2500)
@@ -204,7 +206,7 @@ def _sel_viol(res, prop):
         out.append({"sig": {"clause": mine[0]},
                     "what": f'{mine} on DAG n={it["n"]} deps={it["deps"]} kind={it["kind"]} const={it["const"]} row={row}',
                     "replay": {"engine": "E3", "property": prop, "kind": "sel", "clauses": mine,
-                               "dag": {k: it[k] for k in ("n", "deps", "kind", "const", "tags", "setuparg", "idxret", "calltag", "actdep", "plaintag") if k in it}, "row": row}})
+                               "dag": {k: it[k] for k in ("n", "deps", "kind", "const", "tags", "setuparg", "idxret", "calltag", "actdep", "plaintag", "nest", "focus") if k in it}, "row": row}})
     return out
 
 
